@@ -274,7 +274,7 @@ def strace_calls(cases, tag, rustfmt):
         raise ToolError("strace run failed: " + p.stdout[-500:])
     lines = open(lp, errors="replace").read().splitlines()
     main_pid = lines[0].split()[0] if lines else ""
-    execs, writes, nets = [], [], []
+    execs, writes, nets, reads = [], [], [], []
     seen_pids = set()
     for ln in lines:
         m = _re.match(r"^(\d+)\s+(\w+)\((.*)", ln)
@@ -294,9 +294,13 @@ def strace_calls(cases, tag, rustfmt):
             wr = call not in ("openat", "open") or _re.search(r"O_WRONLY|O_RDWR|O_CREAT|O_TRUNC|O_APPEND", rest)
             if wr and os.path.abspath(path) not in (tp, ip) and not path.startswith("/dev/"):
                 writes.append(path)
+            elif not wr and os.path.abspath(path) not in (tp, ip) and not path.startswith(("/dev/", "/proc/", "/sys/", "/etc/", "/lib", "/usr/", "/root/.rustup", "/root/.cargo", "/opt/")) \
+                    and not _re.search(r"\.so(\.\d+)*$", path) and "ENOENT" not in ln.split(")")[-1] + ln:
+                reads.append(path)
         elif pid == main_pid and call in ("connect", "socket"):
             nets.append(call)
-    return {"ev": "sys", "id": tag, "rustfmt": rustfmt, "n_calls": len(cases), "execs": execs, "writes": writes, "nets": nets}
+    n_ok = sum(1 for l in open(tp) if '"ev":"obs"' in l.replace(" ", "") and json.loads(l).get("ret", {}).get("kind") == "ok")
+    return {"ev": "sys", "id": tag, "rustfmt": rustfmt, "n_calls": n_ok, "execs": execs, "writes": writes, "nets": nets, "reads": sorted(set(reads))}
 
 
 def check_C18(tier, seed):
@@ -320,12 +324,26 @@ def check_C18(tier, seed):
         L.append({"id": "h-%04d" % i, "family": "history", "S": S, "opts": o, "repeat": 2})
     for i, S in enumerate(F.stress_shaders(rng)):
         L.append({"id": "h-stress-%d" % i, "family": "history", "S": S, "opts": F.opts(bmh=True, serde=True), "repeat": 12})
+    # include variants: the path is only ever spliced into include_str!; what the working directory holds under that name is irrelevant
+    for i in range(4):
+        S, has_rt = F.role_shader(rng)
+        L.append({"id": "h-inc-%d" % i, "family": "history", "S": S, "opts": dict(F.opts(enc=True, mv="glam"), include=["shader.wgsl", "shaders/main.wgsl", "../x.wgsl", "shader.wgsl"][i]), "repeat": 1})
+    # programs above the OS pipe buffer with the formatter on (also run concurrently below)
+    for i, S in enumerate([F.wide(120, 150), F.wide(300, 20)]):
+        L.append({"id": "h-large-%d" % i, "family": "history", "S": S, "opts": F.opts(rustfmt=True), "repeat": 1})
     for i, (name, text) in enumerate(repo_shaders()):
         L.append({"id": "h-repo-%d" % i, "family": "history", "wgsl": text, "opts": F.opts(bmv=True, enc=True, mv="glam"), "repeat": 2})
     # (i) in one process, with repeats
     evA = run_vdriver_raw("gen", L, "C18_A", extra=["--no-project", "--no-s"])
     # (ii) another process: reversed order (different history of previous calls), other cwd, scrubbed environment
-    evB = run_vdriver_raw("gen", list(reversed(L)), "C18_B", cwd="/", clean_env=True,
+    # working directories that hold files under the include paths, with different / identical / no contents
+    plant = os.path.join(WORK, "runs", "C18_cwd_planted")
+    shutil.rmtree(plant, ignore_errors=True)
+    os.makedirs(os.path.join(plant, "shaders"))
+    open(os.path.join(plant, "shader.wgsl"), "w").write("// something else entirely\n@fragment fn other() {}\n")
+    open(os.path.join(plant, "shaders", "main.wgsl"), "w").write("")
+    open(os.path.join(WORK, "runs", "x.wgsl"), "w").write("@compute @workgroup_size(1) fn unrelated() {}\n")
+    evB = run_vdriver_raw("gen", list(reversed(L)), "C18_B", cwd=plant, clean_env=True,
                           env={"RUST_BACKTRACE": "1", "TMPDIR": "/nonexistent", "LANG": "tr_TR.UTF-8", "VERIF_NOISE": str(rng.random())},
                           extra=["--no-project", "--no-s"])
     # (iii) a third process with yet another order
@@ -343,11 +361,13 @@ def check_C18(tier, seed):
     evD = run_vdriver_raw("sched", groups, "C18_D")
     # (v) free-running threads, eight at a time
     fgroups = [{"id": "f-%04d" % i, "cases": [L[(i + q) % len(L)] for q in range(8)], "schedule": []} for i in range(0, len(L), 2)]
+    large = [c for c in L if c["id"].startswith("h-large")]
+    fgroups += [{"id": "f-large-%d" % i, "cases": [large[(i + q) % len(large)] for q in range(6)], "schedule": []} for i in range(3)]
     evE = run_vdriver_raw("sched", fgroups, "C18_E")
     # (vi) system calls of the calling process: nothing is spawned or opened for writing, except one formatter per call when asked
     sys_events = []
     for fmt in (False, True):
-        sc = [dict(c, opts=dict(c["opts"], rustfmt=fmt), repeat=0) for c in L[:6]]
+        sc = [dict(c, opts=dict(c["opts"], rustfmt=fmt), repeat=0) for c in (L[:5] + [c for c in L if c["id"].startswith(("h-large", "h-inc"))][:3])]
         sys_events.append(strace_calls(sc, "C18_sys_%d" % fmt, fmt))
     by_src = {}
     order = []
